@@ -217,6 +217,16 @@ func Wide(r *rand.Rand, layers, wmin, wmax int, p float64) IG {
 				e = append(e, [2]int{start[l] + r.Intn(widths[l]), start[l+1] + b})
 			}
 		}
+		// every node of the upper layer gets a lower neighbour too, so that all generated nodes appear in the edge list
+		used := map[int]bool{}
+		for _, x := range e {
+			used[x[0]] = true
+		}
+		for a := 0; a < widths[l]; a++ {
+			if !used[start[l]+a] {
+				e = append(e, [2]int{start[l] + a, start[l+1] + r.Intn(widths[l+1])})
+			}
+		}
 	}
 	shuffleEdges(r, e)
 	return IG{n, e, "F8-wide"}
@@ -400,6 +410,31 @@ func Hub(r *rand.Rand) IG {
 		shuffleEdges(r, e)
 	}
 	return IG{n, e, "F13-hub"}
+}
+
+// LongEdges is family F14: a chain of 22-40 nodes plus a few edges that span 20 layers or more (each becomes a run of
+// 20+ helper nodes, a corridor of 40+ rectangles), some of them parallel, plus a few side nodes.
+func LongEdges(r *rand.Rand) IG {
+	l := 22 + r.Intn(19)
+	var e [][2]int
+	for i := 0; i+1 < l; i++ {
+		e = append(e, [2]int{i, i + 1})
+	}
+	n := l
+	for k := 1 + r.Intn(4); k > 0; k-- {
+		a := r.Intn(l - 20)
+		b := a + 20 + r.Intn(l-20-a)
+		e = append(e, [2]int{a, b})
+		if r.Intn(3) == 0 {
+			e = append(e, [2]int{a, b}) // parallel long edge
+		}
+	}
+	for k := r.Intn(4); k > 0; k-- { // side nodes
+		e = append(e, [2]int{r.Intn(l), n})
+		n++
+	}
+	shuffleEdges(r, e)
+	return IG{n, e, "F14-long-edges"}
 }
 
 // Coincidence is family F11: structures aimed at the mechanisms named in the properties.
